@@ -83,6 +83,16 @@ InsertIn(S, b) ==
           pruned  |-> S.pruned \ rng,
           meta    |-> S.meta]
 
+\* the other operations as functions of a state: the state after a successful call, and the result kind
+RemoveIn(S, h) == [hdr     |-> [x \in StoredIn(S) \ {h} |-> S.hdr[x]],
+                   sampled |-> S.sampled \ {h},
+                   pruned  |-> S.pruned \cup {h},
+                   meta    |-> [x \in (DOMAIN S.meta) \ {h} |-> S.meta[x]]]
+MarkIn(S, h)   == [S EXCEPT !.sampled = @ \cup {h}]
+MetaIn(S, h, cs) == [S EXCEPT !.meta = [x \in (DOMAIN S.meta) \cup {h} |->
+                        IF x = h THEN (IF h \in DOMAIN S.meta THEN S.meta[h] ELSE {}) \cup cs ELSE S.meta[x]]]
+HeightResIn(S, h) == IF h \in StoredIn(S) THEN ROk ELSE RNotFound
+
 NeighborsBad(b) == NeighborsBadIn(CurStoreState, b)
 DupTag(b)       == DupTagIn(CurStoreState, b)
 FailKinds(b)    == FailKindsIn(CurStoreState, b)
